@@ -306,6 +306,43 @@ func (w *Worker) intrinsic(fn *ssa.Function, args []Val) (Val, bool) {
 		n := int(w.concretize(args[0].(*Term), "MakeNoZero"))
 		o := w.allocElems(types.Typ[types.Uint8], n)
 		return Slice{o.ID, 0, n, n, 1}, true
+	case "time.Now":
+		if w.modelFor(fn) != nil {
+			return nil, false
+		}
+		// no harness model (vModel_time_Now) in this package: a fixed instant (no monotonic reading)
+		return Tuple{ts.Const(64, 0), ts.Const(64, 63_800_000_000), Ptr{}}, true
+	case "runtime.SetFinalizer":
+		return nil, true
+	case "errors.Is":
+		return w.errorsIs(args[0].(Iface), args[1].(Iface), 0), true
+	case "fmt.Fprintf", "fmt.Fprint", "fmt.Fprintln":
+		var txt string
+		if full == "fmt.Fprintf" {
+			txt = w.fmtText(args[1:])
+		} else {
+			if va, ok := args[1].(Slice); ok {
+				for i := 0; i < va.Len; i++ {
+					if i > 0 && full == "fmt.Fprintln" {
+						txt += " "
+					}
+					txt += w.fmtArg(w.obj(va.Obj).Leaves[va.Off+i])
+				}
+			}
+			if full == "fmt.Fprintln" {
+				txt += "\n"
+			}
+		}
+		wr := args[0].(Iface)
+		if wr.T == nil {
+			w.goPanic("nil-deref", "fmt.Fprint to nil writer")
+		}
+		m := w.prog.LookupMethod(wr.T, nil, "Write")
+		r := w.callFunction(m, []Val{wr.V, w.newBytes([]byte(txt))}, nil)
+		return r, true
+	case "sort.Slice", "sort.SliceStable":
+		w.sortSlice(args[0].(Iface), args[1].(*Closure))
+		return nil, true
 	case "runtime.KeepAlive", "runtime.GC", "runtime.Gosched":
 		return nil, true
 	}
@@ -767,4 +804,64 @@ func (w *Worker) syncMapIntrinsic(name string, args []Val) Val {
 		return nil
 	}
 	panic(engineError{"sync.Map." + name + " not modelled"})
+}
+
+// errorsIs: errors.Is without reflection: equality, then an Is method, then Unwrap.
+func (w *Worker) errorsIs(err, target Iface, depth int) *Term {
+	ts := w.ts
+	if err.T == nil || target.T == nil {
+		return ts.Bool(err.T == nil && target.T == nil)
+	}
+	if depth > 16 {
+		return ts.False
+	}
+	if types.Identical(err.T, target.T) && types.Comparable(err.T) {
+		eq := w.valEq(err.V, target.V, err.T)
+		if w.branch(eq) {
+			return ts.True
+		}
+	}
+	ms := w.prog.MethodSets.MethodSet(err.T)
+	if sel := ms.Lookup(nil, "Is"); sel != nil {
+		if m := w.prog.MethodValue(sel); m != nil && m.Signature.Params().Len() == 1 {
+			r := w.callFunction(m, []Val{err.V, target}, nil)
+			if t, ok := r.(*Term); ok && w.branch(t) {
+				return ts.True
+			}
+		}
+	}
+	if sel := ms.Lookup(nil, "Unwrap"); sel != nil {
+		if m := w.prog.MethodValue(sel); m != nil && m.Signature.Params().Len() == 0 {
+			r := w.callFunction(m, []Val{err.V}, nil)
+			if inner, ok := r.(Iface); ok {
+				return w.errorsIs(inner, target, depth+1)
+			}
+		}
+	}
+	return ts.False
+}
+
+// sortSlice: sort.Slice by insertion sort over the slice's leaves, calling the real less closure.
+func (w *Worker) sortSlice(x Iface, less *Closure) {
+	sl, ok := x.V.(Slice)
+	if !ok || sl.Len < 2 {
+		return
+	}
+	st := sl.Stride
+	if st == 0 {
+		st = 1
+	}
+	lessAt := func(i, j int) bool {
+		r := w.callFunction(less.Fn, []Val{w.ts.Const(64, uint64(i)), w.ts.Const(64, uint64(j))}, less.Bind)
+		return w.branch(r.(*Term))
+	}
+	for i := 1; i < sl.Len; i++ {
+		for j := i; j > 0 && lessAt(j, j-1); j-- {
+			o := w.mut(sl.Obj)
+			a, b := sl.Off+j*st, sl.Off+(j-1)*st
+			for k := 0; k < st; k++ {
+				o.Leaves[a+k], o.Leaves[b+k] = o.Leaves[b+k], o.Leaves[a+k]
+			}
+		}
+	}
 }
